@@ -1424,3 +1424,52 @@ _RT11 = {
 }
 for _p, _l in _RT11.items():
     VARIANTS.setdefault(_p, []).extend(_l)
+
+_RT12 = {
+    'C20': [
+        # repaired form of the known finding MODEL-ANCHOR: the check must be
+        # silent on it (and lose its KNOWN-FINDING line)
+        T('rt12-T-model-glass-anchored',
+          (O + 'materials/abbe.py',
+           '        return np.polyval(self._p, wavelength)\n',
+           '        ld, lf, lc = 0.5875618, 0.4861327, 0.6562725\n'
+           '        nd_fit = np.polyval(self._p, ld)\n'
+           '        disp_fit = np.polyval(self._p, lf) - '
+           'np.polyval(self._p, lc)\n'
+           '        scale = ((self.index - 1) / self.abbe) / disp_fit\n'
+           '        return self.index + (np.polyval(self._p, wavelength) - '
+           'nd_fit) * scale\n')),
+    ],
+}
+for _p, _l in _RT12.items():
+    VARIANTS.setdefault(_p, []).extend(_l)
+
+_RT13 = {
+    'C02': [
+        T('rt13-T-quadratic-stable',
+          (ST, '            t1 = (-b + np.sqrt(d)) / (2 * a)\n'
+               '            t2 = (-b - np.sqrt(d)) / (2 * a)\n',
+           '            q = -0.5 * (b + np.where(b >= 0, 1.0, -1.0) * '
+           'np.sqrt(d))\n            t1 = q / a\n            t2 = c / q\n')),
+    ],
+}
+for _p, _l in _RT13.items():
+    VARIANTS.setdefault(_p, []).extend(_l)
+
+_RT14 = {
+    'C02': [
+        M('rt14-no-k-data-raises',
+          (RR, "            try:\n                k = material.k(self.w)\n"
+               "            except ValueError:\n"
+               "                # catalogue entry without extinction data: "
+               "lossless\n                k = 0.0\n",
+           "            k = material.k(self.w)\n")),
+        M('rt14-no-k-data-opaque',
+          (RR, "                # catalogue entry without extinction data: "
+               "lossless\n                k = 0.0\n",
+           "                # catalogue entry without extinction data\n"
+           "                k = np.inf\n")),
+    ],
+}
+for _p, _l in _RT14.items():
+    VARIANTS.setdefault(_p, []).extend(_l)
